@@ -85,6 +85,8 @@ def ops_for(fnlabel):
         return ['xpath.corpus_paths', 'xpath.corpus_scalars', 'xpath.corpus_names']
     if fnlabel in ('eval_node_test', 'eval_axis_node_test', 'eval_step_expr', 'eval_predicate', 'eval_filter_expr', 'eval_union_expr', 'eval_path_expr'):
         return ['xpath.corpus_paths', 'xpath.corpus_names']
+    if fnlabel in ('dom::XmlElement::insert_before', 'dom::XmlElement::remove_child'):
+        return ['dom.seq1_atomic']
     if fnlabel in ('dom::XmlElement::set_attribute_node', 'dom::XmlElement::remove_attribute_node', 'dom::XmlElement::set_attribute', 'dom::XmlElement::remove_attribute'):
         return ['dom.attr_seq1', 'dom.attr_seq']
     if fnlabel.startswith('dom::XmlAttr::as_expanded_name') or fnlabel.startswith('dom::XmlElement::'):
